@@ -56,7 +56,7 @@ CHECKS = {
          "For every class defining __eq__/__hash__ the attributes that can influence the hash (through the get_sql skeleton it hashes) must be a subset of those compared by __eq__; set element classes must have a bool __eq__ or a hash separating every distinct reference; nodes_() must traverse every rendered child. Membership answers on generated objects are not computed. A child rendered as a component of a tuple element must be reached as that component; a hash that includes the class requires an exact-class __eq__. Traversal of a child is guarded only by type/None tests on it.",
          "Python data-model contract; hash collisions of distinct strings ignored", "2/C17"),
  "C18": ("regex AST shape proof (re._parser) + symbolic folding of the Interval renderer",
-         "Exhaustive over 4 trim alternatives, 7 template slots and the shipped dialect templates: every alternative is anchored, consumes only zeros and the template's separators and touches retained text with a separator (so only whole zero fields at the ends can be removed); slot order, separators, sign, unit designator, per-dialect quoting form and the untrimmed special cases are folded from the renderer. Numeric read-back for arbitrary digit patterns is not computed. Positions that can hold an Interval render it through get_sql(ctx) (inherited from C08/R1). Interval.get_sql writes no state (no memo shared between objects); the statement's dialect reaches every entry path (inherited from C08/R1c); a constructor that recomputes its component parameters is refused (exit 2) rather than judged.",
+         "Exhaustive over 4 trim alternatives, 7 template slots and the shipped dialect templates: every alternative is anchored, consumes only zeros and the template's separators and touches retained text with a separator (so only whole zero fields at the ends can be removed); slot order, separators, sign, unit designator, per-dialect quoting form and the untrimmed special cases are folded from the renderer. Numeric read-back for arbitrary digit patterns is not computed. Positions that can hold an Interval render it through get_sql(ctx) (inherited from C08/R1). Interval.get_sql writes no state (no memo shared between objects); the statement's dialect reaches every entry path (inherited from C08/R1c); the constructor's bookkeeping (magnitudes per unit, largest/smallest, sign of the first non-zero component) is decided by finite evaluation of Interval.__init__ over sign patterns (105 quick, all 2187 thorough); a constructor that computes with its component parameters is refused (exit 2) rather than judged.",
          "field layout implied by the unit designator", "2/C18"),
 }
 
